@@ -17,7 +17,7 @@ def _work(sc: ConcScenario):
     try:
         r = ConcRunner(_PROG, sc, max_paths=int(os.environ.get('VERIF_MAX_SCHEDULES', '60000'))).run()
         return {'name': sc.name, 'queries': r.queries, 'paths': r.paths, 'steps': r.steps, 'points': r.sched_points, 'findings': r.findings, 'samples': r.samples,
-                'modelled': r.modelled, 'executed': r.executed, 'max_switches': r.max_switches, 'time': time.time() - t0, 'error': None}
+                'modelled': r.modelled, 'executed': r.executed, 'max_switches': r.max_switches, 'time': time.time() - t0, 'error': None, 'inv_checks': getattr(r, 'inv_checks', 0)}
     except C.Inconclusive as e:
         return {'name': sc.name, 'error': 'inconclusive: %s' % e, 'time': time.time() - t0}
     except Exception as e:
@@ -44,6 +44,8 @@ def report(chk: C.Check, prop: str, results, scs, owned_kinds=None, describe='')
     chk.coverage['mir_statements_executed'] = chk.coverage.get('mir_statements_executed', 0) + sum(r.get('steps', 0) for r in results)
     chk.coverage['schedules_explored'] = chk.coverage.get('schedules_explored', 0) + tot_paths
     chk.coverage['scheduling_points'] = chk.coverage.get('scheduling_points', 0) + tot_points
+    if any(r.get('inv_checks') for r in results):
+        chk.coverage['protocol_invariant_evaluations'] = chk.coverage.get('protocol_invariant_evaluations', 0) + sum(r.get('inv_checks', 0) for r in results)
     chk.coverage['states'] = chk.coverage.get('states', 0) + max(tot_paths, 1)
     chk.coverage['transitions'] = chk.coverage.get('transitions', 0) + max(tot_points, 1)
     byname = {s.name: s for s in scs}
